@@ -16,7 +16,7 @@ LOCAL_KNOWN = os.path.join(HERE, 'eblif_known.json')
 
 # failure kind -> input classes that can explain it (first one present in the document is taken)
 CAUSES = {
-    'reader-raised': ['latch-mix', 'no-final-end', 'trailing-comment'],
+    'reader-raised': ['inout-outputs-first', 'latch-mix', 'no-final-end', 'trailing-comment'],
     'top-election': ['unused-first-model'],
     'top-library': ['unused-first-model'],
     'top-ports': ['header-gap', 'outputs-before-inputs', 'trailing-comment'],
